@@ -10,7 +10,9 @@ ABUF = "A"
 
 
 def run_unarmor(facts, budget=20000):
-    I = Interp(facts, xform.EXT, budget=budget)
+    # helper functions called from unarmor (a per-byte table, a masking helper) are part of the
+    # algorithm under test: interpret them inline rather than as opaque leaf applications
+    I = Interp(facts, xform.EXT, inline_leaves=True, budget=budget)
     I.cong_atoms.add(("len", ABUF))
     st = St()
     root = facts.bodies[facts.crate + "::messages::unarmor"]
